@@ -1,1 +1,291 @@
-(* placeholder *)
+(* Event-level abstraction of the replication of ONE component key (one synchronized entity x one
+   registered component type) of bevy_sync, with the "applied from network, swallow the next
+   detection" token mechanism.
+
+   Rust: /repo/src/lib_priv.rs  sync_detect / SyncTrackerRes::signal_component_changed /
+         apply_component_change_from_network, server/receiver.rs + client/receiver.rs
+         (Message::ComponentUpdated), server/mod.rs + client/mod.rs react_on_changed_components.
+   Frame-level model: theories/Sync/Model.v  sync_detect, signal_component_changed,
+         react_on_changed_components, apply_component_change, CApplyComp, MComp.
+
+   Everything here is executable (total functions, decidable validity): the model is meant to be
+   run against real traces as well as reasoned about (ValuesProofs.v). *)
+From Coq Require Import NArith List Lia.
+From stdpp Require Import gmap list.
+
+Definition peer := N.   (* 0 = host *)
+Definition value := N.  (* value equality (Rust: reflect_partial_eq) is Leibniz equality here; values that
+                           differ from themselves (NaN-like floats) are outside this abstraction: for such a
+                           value the "equal => not applied" test never fires and every delivery re-applies. *)
+Definition host : peer := 0%N.
+
+Record vpeer := VPeer {
+  cur : option value;    (* the component's value on this peer, None = component absent *)
+  dirty : bool;          (* a local write the change detector has not yet seen *)
+  token : bool;          (* an update applied from the network the detector has not yet seen
+                            (pushed_component_from_network contains the key) *)
+  outq : list value      (* changed_components_to_send, not yet handed to renet *)
+}.
+
+Record vstate := VState {
+  vp : gmap peer vpeer;
+  vconn : list peer;                          (* connected clients, in connection order *)
+  vlinks : gmap (peer * peer) (list value)    (* reliable ordered channel src -> dst, head = oldest *)
+}.
+
+Inductive vevent :=
+| VWrite (p : peer) (v : value)  (* the application writes v on p *)
+| VDetect (p : peer)             (* sync_detect::<T> of p runs *)
+| VSend (p : peer)               (* react_on_changed_components of p runs *)
+| VDeliver (src dst : peer)      (* dst applies the oldest message of src -> dst *)
+| VJoin (c : peer).              (* c connects; the host answers with the snapshot *)
+
+Global Instance vevent_eq_dec : EqDecision vevent.
+Proof. solve_decision. Defined.
+
+(* ---------- getters (total, with defaults) ------------------------------------------------ *)
+
+Definition vpeer0 : vpeer := VPeer None false false [].
+Definition getp (s : vstate) (p : peer) : vpeer := default vpeer0 (vp s !! p).
+Definition pcur (s : vstate) (p : peer) : option value := cur (getp s p).
+Definition pdirty (s : vstate) (p : peer) : bool := dirty (getp s p).
+Definition ptoken (s : vstate) (p : peer) : bool := token (getp s p).
+Definition poutq (s : vstate) (p : peer) : list value := outq (getp s p).
+Definition lget (L : gmap (peer * peer) (list value)) (a b : peer) : list value := default [] (L !! (a, b)).
+Definition link (s : vstate) (a b : peer) : list value := lget (vlinks s) a b.
+Definition pexists (s : vstate) (p : peer) : bool := bool_decide (is_Some (vp s !! p)).
+
+(* ---------- channel operations -------------------------------------------------------------- *)
+
+Definition push_link (L : gmap (peer * peer) (list value)) (a b : peer) (vs : list value) :=
+  <[(a, b) := lget L a b ++ vs]> L.
+
+(* server.broadcast_message / repeat_except_for_client: one copy per destination *)
+Definition send_to (L : gmap (peer * peer) (list value)) (src : peer) (dsts : list peer) (vs : list value) :=
+  foldr (fun d L => push_link L src d vs) L dsts.
+
+Definition others (src : peer) (l : list peer) : list peer := filter (fun c => c <> src) l.
+
+(* ---------- one event ------------------------------------------------------------------------- *)
+
+Definition set_peer (s : vstate) (p : peer) (x : vpeer) : vstate :=
+  VState (<[p := x]> (vp s)) (vconn s) (vlinks s).
+
+(* sync_detect + signal_component_changed.  Changed<T> is ONE flag, raised both by a local write
+   and by a network apply: here it is [dirty || token].  If the token is present it is removed and
+   NOTHING is queued -- this also swallows a local write that landed between the network apply and
+   this detector run (a lost local update; exhibited by [C02_conflict_example]). *)
+Definition vdetect (x : vpeer) : vpeer :=
+  if token x then VPeer (cur x) false false (outq x)
+  else VPeer (cur x) false false (outq x ++ match cur x with Some v => [v] | None => [] end).
+
+Definition vstep (s : vstate) (e : vevent) : option vstate :=
+  match e with
+  | VWrite p v =>
+      match vp s !! p with
+      | None => None
+      | Some x => Some (set_peer s p (VPeer (Some v) true (token x) (outq x)))
+      end
+  | VDetect p =>
+      match vp s !! p with
+      | None => None
+      | Some x => if dirty x || token x then Some (set_peer s p (vdetect x)) else Some s
+      end
+  | VSend p =>
+      match vp s !! p with
+      | None => None
+      | Some x =>
+          match outq x with
+          | [] => Some s
+          | q => let dsts := if (p =? host)%N then vconn s else [host] in
+                 Some (VState (<[p := VPeer (cur x) (dirty x) (token x) []]> (vp s)) (vconn s)
+                              (send_to (vlinks s) p dsts q))
+          end
+      end
+  | VDeliver src dst =>
+      match link s src dst, vp s !! dst with
+      | v :: rest, Some x =>
+          let L := <[(src, dst) := rest]> (vlinks s) in
+          if bool_decide (cur x = Some v) then Some (VState (vp s) (vconn s) L)   (* equal: not applied, not relayed *)
+          else Some (VState (<[dst := VPeer (Some v) (dirty x) true (outq x)]> (vp s)) (vconn s)
+                            (if (dst =? host)%N then send_to L host (others src (vconn s)) [v] else L))
+      | _, _ => None
+      end
+  | VJoin c =>
+      if (c =? host)%N || bool_decide (c ∈ vconn s) || pexists s c then None
+      else Some (VState (<[c := vpeer0]> (vp s)) (vconn s ++ [c])
+                        (match pcur s host with
+                         | Some v => push_link (vlinks s) host c [v]     (* the snapshot *)
+                         | None => vlinks s
+                         end))
+  end.
+
+Fixpoint vrun (s : vstate) (tr : list vevent) : option vstate :=
+  match tr with
+  | [] => Some s
+  | e :: tr => match vstep s e with Some s' => vrun s' tr | None => None end
+  end.
+
+(* host + clients 1..n, all connected, no value anywhere *)
+Definition clients (n : nat) : list peer := N.of_nat <$> seq 1 n.
+Definition vinit (n : nat) : vstate :=
+  VState (list_to_map ((fun p => (p, vpeer0)) <$> (host :: clients n))) (clients n) ∅.
+
+(* ---------- quiescence ------------------------------------------------------------------------ *)
+
+Definition peer_idle (x : vpeer) : Prop := outq x = [] /\ dirty x = false /\ token x = false.
+Definition vquiescent (s : vstate) : Prop :=
+  map_Forall (fun _ l => l = []) (vlinks s) /\ map_Forall (fun _ x => peer_idle x) (vp s).
+Global Instance peer_idle_dec x : Decision (peer_idle x).
+Proof. unfold peer_idle. apply _. Defined.
+Global Instance vquiescent_dec s : Decision (vquiescent s).
+Proof. unfold vquiescent. apply _. Defined.
+Definition vquiescentb (s : vstate) : bool := bool_decide (vquiescent s).
+
+(* ---------- well-formed states (an invariant of every run from [vinit n]) --------------------- *)
+
+Definition vwf (s : vstate) : Prop :=
+  NoDup (vconn s) /\ host ∉ vconn s /\
+  (forall p, is_Some (vp s !! p) <-> p = host \/ p ∈ vconn s) /\
+  (forall a b, link s a b <> [] -> (a = host /\ b ∈ vconn s) \/ (b = host /\ a ∈ vconn s)).
+
+(* ---------- observations on traces ------------------------------------------------------------ *)
+
+Definition written (tr : list vevent) : list value :=
+  omap (fun e => match e with VWrite _ v => Some v | _ => None end) tr.
+Definition writers (tr : list vevent) : list peer :=
+  omap (fun e => match e with VWrite p _ => Some p | _ => None end) tr.
+Definition joiners (tr : list vevent) : list peer :=
+  omap (fun e => match e with VJoin c => Some c | _ => None end) tr.
+Definition only_writer (w : peer) (tr : list vevent) : Prop := Forall (fun p => p = w) (writers tr).
+
+(* the values p displays along the run from s, one entry per CHANGE of [pcur s p] *)
+Fixpoint displayed (p : peer) (s : vstate) (tr : list vevent) : list value :=
+  match tr with
+  | [] => []
+  | e :: tr =>
+      match vstep s e with
+      | None => []
+      | Some s' =>
+          (if bool_decide (pcur s' p = pcur s p) then []
+           else match pcur s' p with Some v => [v] | None => [] end) ++ displayed p s' tr
+      end
+  end.
+
+(* every state visited (including the first and the last) *)
+Fixpoint vstates (s : vstate) (tr : list vevent) : list vstate :=
+  s :: match tr with
+       | [] => []
+       | e :: tr => match vstep s e with Some s' => vstates s' tr | None => [] end
+       end.
+
+(* number of messages an event hands to the network *)
+Definition sent_by (s : vstate) (e : vevent) : nat :=
+  match e with
+  | VSend p => length (poutq s p) * (if (p =? host)%N then length (vconn s) else 1)
+  | VDeliver src dst =>
+      match link s src dst with
+      | v :: _ => if bool_decide (pcur s dst = Some v) then 0
+                  else if (dst =? host)%N then length (others src (vconn s)) else 0
+      | [] => 0
+      end
+  | VJoin _ => match pcur s host with Some _ => 1 | None => 0 end
+  | _ => 0
+  end.
+Fixpoint total_sent (s : vstate) (tr : list vevent) : nat :=
+  match tr with
+  | [] => 0
+  | e :: tr => match vstep s e with Some s' => sent_by s e + total_sent s' tr | None => 0 end
+  end.
+
+(* ---------- drain separation -------------------------------------------------------------------
+   [g] = the peer that has written since the state was last quiescent (None = nobody).
+   drain_separated: between two VWrite by DIFFERENT peers the state is quiescent at least once.
+   joiners_settled: between [VJoin c] and a later [VWrite c _] the state is quiescent at least once
+   (the snapshot travelling to c is a host message that conflicts with c's own write:
+   see [C02_join_write_refuted]). [blk] = the peers that joined since the last quiescent state. *)
+Fixpoint ds_from (g : option peer) (s : vstate) (tr : list vevent) : bool :=
+  match tr with
+  | [] => true
+  | e :: tr =>
+      let g := if vquiescentb s then None else g in
+      match vstep s e with
+      | None => true
+      | Some s' =>
+          match e with
+          | VWrite p _ => bool_decide (g = None \/ g = Some p) && ds_from (Some p) s' tr
+          | _ => ds_from g s' tr
+          end
+      end
+  end.
+Definition drain_separated (s : vstate) (tr : list vevent) : Prop := ds_from None s tr = true.
+
+Fixpoint js_from (blk : list peer) (s : vstate) (tr : list vevent) : bool :=
+  match tr with
+  | [] => true
+  | e :: tr =>
+      let blk := if vquiescentb s then [] else blk in
+      match vstep s e with
+      | None => true
+      | Some s' =>
+          match e with
+          | VWrite p _ => bool_decide (p ∉ blk) && js_from blk s' tr
+          | VJoin c => js_from (c :: blk) s' tr
+          | _ => js_from blk s' tr
+          end
+      end
+  end.
+Definition joiners_settled (s : vstate) (tr : list vevent) : Prop := js_from [] s tr = true.
+
+(* every VJoin happens while the host has nothing queued (only relevant when the host itself writes:
+   see [C10_host_join_refuted]) *)
+Fixpoint joins_clean (s : vstate) (tr : list vevent) : bool :=
+  match tr with
+  | [] => true
+  | e :: tr =>
+      match vstep s e with
+      | None => true
+      | Some s' =>
+          match e with
+          | VJoin _ => bool_decide (poutq s host = []) && joins_clean s' tr
+          | _ => joins_clean s' tr
+          end
+      end
+  end.
+
+(* ---------- examples (non-vacuity of the model) ----------------------------------------------- *)
+
+Definition view (s : vstate) (ps : list peer) : list (option value) * bool := (pcur s <$> ps, vquiescentb s).
+
+(* 3 peers, writer = client 1, burst 10,20,30 with the host two events behind; client 2 is reached
+   through the host's relay; ends quiescent with 30 everywhere. *)
+Definition ex_burst : list vevent :=
+  [VWrite 1 10; VDetect 1; VSend 1; VWrite 1 20; VDetect 1; VSend 1; VWrite 1 30;
+   VDeliver 1 0; VDetect 1; VDeliver 0 2; VSend 1; VDeliver 1 0; VDetect 0; VDeliver 1 0;
+   VDeliver 0 2; VDetect 2; VDeliver 0 2; VDetect 0; VDetect 2]%N.
+Example ex_burst_runs :
+  (fun s => view s [0; 1; 2]%N) <$> vrun (vinit 2) ex_burst = Some ([Some 30; Some 30; Some 30]%N, true).
+Proof. vm_compute. reflexivity. Qed.
+Example ex_burst_displayed : displayed 2%N (vinit 2) ex_burst = [10; 20; 30]%N.
+Proof. vm_compute. reflexivity. Qed.
+
+(* the detector coalesces: two writes before one detection announce only the second *)
+Example ex_coalesce :
+  displayed 0%N (vinit 2) [VWrite 1 10; VWrite 1 20; VDetect 1; VSend 1; VDeliver 1 0]%N = [20%N].
+Proof. vm_compute. reflexivity. Qed.
+
+(* a local write between a network apply and the next detector run is swallowed with the token *)
+Example ex_swallow :
+  (fun s => (view s [0; 1; 2]%N, poutq s 2%N)) <$>
+  vrun (vinit 2) [VWrite 1 10; VDetect 1; VSend 1; VDeliver 1 0; VDeliver 0 2; VWrite 2 99; VDetect 2; VDetect 0]%N
+  = Some (([Some 10; Some 10; Some 99]%N, true), []).
+Proof. vm_compute. reflexivity. Qed.
+
+(* a join while an update is in flight *)
+Example ex_join :
+  (fun s => view s [0; 1; 2; 3]%N) <$>
+  vrun (vinit 2) [VWrite 1 10; VDetect 1; VSend 1; VDeliver 1 0; VWrite 1 20; VDetect 1; VSend 1; VJoin 3;
+                  VDeliver 1 0; VDeliver 0 3; VDeliver 0 3; VDeliver 0 2; VDeliver 0 2;
+                  VDetect 0; VDetect 2; VDetect 3]%N
+  = Some ([Some 20; Some 20; Some 20; Some 20]%N, true).
+Proof. vm_compute. reflexivity. Qed.
